@@ -228,7 +228,14 @@ def gen_ops(rng, tier):
             off, step = rng.choice([(1e8, 1.0), (1e8, 0.001), (2450000.5, 0.01), (37.0, 1e-7), (-1e6, 0.5), (1e12, 3.0), (170.0, 1.0)])
             for r in data:
                 r[j] = off + step * rng.randint(0, 19)
-        yield {"samples": [f"s{i}" for i in range(ns)], "names": [f"p{j}" for j in range(m)], "data": data, "rs": rng.choice([None, rng.sample([f"s{i}" for i in range(ns)] + ["zz"], rng.randint(1, ns + 1))]), "cs": rng.choice([None, rng.sample([f"p{j}" for j in range(m)], rng.randint(1, m))])}
+        names = [f"p{j}" for j in range(m)]
+        cs = rng.choice([None, rng.sample(names, rng.randint(1, m))])
+        if m > 1 and rng.random() < 0.25:
+            # a repeated column name (what `simphenotype --replications` produces): subsetting by samples only must still work
+            names = [rng.choice(["H1", "bmi"]) for _ in range(m)]
+            names[1] = names[0]
+            cs = None
+        yield {"samples": [f"s{i}" for i in range(ns)], "names": names, "data": data, "rs": rng.choice([None, rng.sample([f"s{i}" for i in range(ns)] + ["zz"], rng.randint(1, ns + 1))]), "cs": cs}
 
 
 def impl_ops(case):
@@ -288,7 +295,7 @@ def oracle_ops(case, obs):
     if a["names"] != case["names"] + ["extra"] or a["samples"] != case["samples"] or a["data"] != [D[i] + [float(i)] for i in range(ns)]:
         return f"append produced {a}"
     rows = [case["samples"].index(s) for s in (case["rs"] or case["samples"]) if s in case["samples"]]
-    cols = [case["names"].index(n) for n in (case["cs"] or case["names"])]
+    cols = list(range(m)) if case["cs"] is None else [case["names"].index(n) for n in case["cs"]]
     s = obs["subset"]
     if s["samples"] != [case["samples"][i] for i in rows] or s["names"] != [case["names"][j] for j in cols] or s["data"] != [[D[i][j] for j in cols] for i in rows]:
         return f"subset(samples={case['rs']}, names={case['cs']}) returned {s}"
